@@ -27,7 +27,8 @@ def main(argv=None):
 
     if args.replay:
         rp = json.load(open(args.replay))
-        args.only = rp.get("obligation")
+        # SMT obligations are named <runner>:<kind>:<program>; re-run the runner they came from
+        args.only = (rp.get("obligation") or "").split(":")[0]
         args.tier = rp.get("tier", args.tier)
 
     obls = registry.obligations(prop, args.tier, seed)
